@@ -37,6 +37,7 @@ typedef struct
     size_type eloss_ppid;          /* invalid => no continuous loss */
     real_type dedx_range;
     real_type interaction_mfp;
+    real_type macro_xs;          /* PhysicsStepView::macro_xs() */
 } Track;
 
 typedef struct { Track* t; } CoreTrackView;
